@@ -1,10 +1,19 @@
 #!/usr/bin/env python3
-"""resolve a union-able merge conflict in tools/extract.py: keep both sides, TABLES lines become .update()"""
-import re
-p='/verif/tools/extract.py'
-s=open(p).read()
-s=re.sub(r"<<<<<<< HEAD\n(.*?)=======\n(.*?)>>>>>>> w/\w+\n", lambda m: m.group(1)+m.group(2), s, flags=re.S)
-s=re.sub(r"^TABLES = (\{[^\n]+\})$", r"TABLES.update(\1)", s, flags=re.M)
-if "\nTABLES = {}\n" not in s:
-    s=s.replace("\ndef src(rel):", "\nTABLES = {}\n\n\ndef src(rel):",1)
-open(p,'w').write(s)
+"""resolve a merge conflict in tools/extract.py: keep HEAD, move the builder's side into a plug-in
+file tools/tables_<name>.py (PLUGIN_TABLES)"""
+import re, sys
+name = sys.argv[1]
+p = '/verif/tools/extract.py'
+s = open(p).read()
+theirs = []
+def repl(m):
+    theirs.append(m.group(2))
+    return m.group(1)
+s = re.sub(r"<<<<<<< HEAD\n(.*?)=======\n(.*?)>>>>>>> [^\n]*\n", repl, s, flags=re.S)
+open(p, 'w').write(s)
+t = "\n".join(theirs)
+t = re.sub(r"^TABLES = \{[^\n]*\}\n", "", t, flags=re.M)
+t = re.sub(r"^TABLES\[", "PLUGIN_TABLES[", t, flags=re.M)
+t = re.sub(r"^TABLES\.update\(", "PLUGIN_TABLES.update(", t, flags=re.M)
+open(f'/verif/tools/tables_{name}.py', 'w').write(f'"""tables_{name}.py — plug-in tables of builder {name} (loaded by extract.py)"""\nPLUGIN_TABLES = {{}}\n\n' + t)
+print(len(theirs), "conflict regions moved")
